@@ -112,6 +112,10 @@ def ensure_facts(config="full", verbose=False):
         args, expect = CONFIGS[config]
         if all(os.path.exists(os.path.join(out, c + ".json")) for c in expect) and \
                 os.path.exists(os.path.join(out, "OK")):
+            try:
+                os.utime(out)      # least-recently-used eviction below
+            except OSError:
+                pass
             return out
         shutil.rmtree(out, ignore_errors=True)
         os.makedirs(out)
